@@ -110,9 +110,17 @@ def retry_answered(c):
     c.snapshot('fire', "sent('Timer')[0][1][1]")
     c.reset_trace()
     # the reply: same header, data starting with the expected bytes
-    tail = c.bytes('tail', 2)
+    tail = c.bytes('tail', c.choice('tail_len', [0, 2]))          # 0: the reply is exactly header + expected bytes
     reply = c.new(STK + ':CRTPPacket', c.get('h'), c.snapshot('rdata', 'bytes(exp) + tail'))
-    c.call((cf, '_check_for_answers'), reply)
+    # the reply travels the way every received packet does: through the packet_received callbacks of the session
+    # (the initial-packet check, which unregisters itself on the first packet of a session, and the answer check)
+    first_packet = c.choice('first_packet_of_the_session', [True, False])
+    if first_packet:
+        c.invoke((c.getfield(cf, 'packet_received'), 'add_callback'), c.getfield(cf, '_check_for_initial_packet_cb'))
+    else:
+        c.invoke((c.getfield(cf, 'packet_received'), 'remove_callback'), c.getfield(cf, '_check_for_initial_packet_cb'))
+    c.set(cf, 'link_established', c.ext('link_established'))
+    c.call((c.getfield(cf, 'packet_received'), 'call'), reply)
     c.ensure('reply-cancels-timer', "raised is None and calls('timer') == ('timer!0.cancel',) and len(cf._answer_patterns) == 0")
     c.reset_trace()
     c.call(c.get('fire'))              # the (already running) timer function still executes
